@@ -188,7 +188,7 @@ def concrete_playback(h, d, env):
         test_name, body = m.group(1), m.group(2)
         vals = re.findall(r"//\s*(.+)\n\s*vec!\[([^\]]*)\]", body)
         desc = dict(test=test_name, values=[dict(value=v.strip(), bytes=b.strip()) for v, b in vals][:64])
-        p = subprocess.run(["timeout", "900", "cargo", "kani", "playback", "-Z", "concrete-playback", "--test", test_name],
+        p = subprocess.run(["timeout", "900", "cargo", "kani", "playback", "-Z", "concrete-playback", "--", test_name],
                            cwd=d, capture_output=True, text=True, env=env)
         out = p.stdout + p.stderr
         confirmed = bool(re.search(r"test result: FAILED|panicked at", out))
